@@ -353,8 +353,8 @@ def _unquote(s, what):
 
 def read_geogram(text):
     lines = [raw.split("#", 1)[0].strip() for raw in text.split("\n")]
-    while lines and lines[-1] == "":
-        lines.pop()
+    if lines and lines[-1] == "":
+        lines.pop()     # what follows the final line break is not a line (an empty last line may be an empty text value)
     pos = 0
 
     def nxt(what, raw=False):
